@@ -43,10 +43,13 @@ import (
 	gcmpb "github.com/tink-crypto/tink-go/v2/proto/aes_gcm_go_proto"
 	gcmsivpb "github.com/tink-crypto/tink-go/v2/proto/aes_gcm_siv_go_proto"
 	sivpb "github.com/tink-crypto/tink-go/v2/proto/aes_siv_go_proto"
+	chachapb "github.com/tink-crypto/tink-go/v2/proto/chacha20_poly1305_go_proto"
 	hkdfprfpb "github.com/tink-crypto/tink-go/v2/proto/hkdf_prf_go_proto"
 	hmacpb "github.com/tink-crypto/tink-go/v2/proto/hmac_go_proto"
 	hmacprfpb "github.com/tink-crypto/tink-go/v2/proto/hmac_prf_go_proto"
 	tinkpb "github.com/tink-crypto/tink-go/v2/proto/tink_go_proto"
+	xaesgcmpb "github.com/tink-crypto/tink-go/v2/proto/x_aes_gcm_go_proto"
+	xchachapb "github.com/tink-crypto/tink-go/v2/proto/xchacha20_poly1305_go_proto"
 )
 
 const tp = c14.TypePrefix
@@ -552,6 +555,21 @@ func rekey(r *hx.Rng, k *c14.MKey) bool {
 		k.Value = mm(v)
 	case "AesCmacPrfKey":
 		v := &cmacprfpb.AesCmacPrfKey{}
+		proto.Unmarshal(k.Value, v)
+		v.KeyValue = r.Bytes(len(v.KeyValue))
+		k.Value = mm(v)
+	case "ChaCha20Poly1305Key":
+		v := &chachapb.ChaCha20Poly1305Key{}
+		proto.Unmarshal(k.Value, v)
+		v.KeyValue = r.Bytes(len(v.KeyValue))
+		k.Value = mm(v)
+	case "XChaCha20Poly1305Key":
+		v := &xchachapb.XChaCha20Poly1305Key{}
+		proto.Unmarshal(k.Value, v)
+		v.KeyValue = r.Bytes(len(v.KeyValue))
+		k.Value = mm(v)
+	case "XAesGcmKey":
+		v := &xaesgcmpb.XAesGcmKey{}
 		proto.Unmarshal(k.Value, v)
 		v.KeyValue = r.Bytes(len(v.KeyValue))
 		k.Value = mm(v)
